@@ -267,7 +267,8 @@ def run(ctx):
     # ---- R14.6 / R14.7 TinyLFU table ---------------------------------------------------------------------
     sk_inc = {L.fn.name for L in inc_sites}
     sk_est = {L.fn.name for L in get_sites}
-    lfu = [f for n, f in F.fns.items() if f.kind != "Closure" and any(t.get("rpath") in sk_inc for b, t in f.calls())]
+    # (the bench-only proxies of the `bench_testable` feature forward to the sketch directly: not the cache's access path)
+    lfu = [f for n, f in F.fns.items() if f.kind != "Closure" and not n.startswith("cache::proxy::") and any(t.get("rpath") in sk_inc for b, t in f.calls())]
     ctx.floor("R14.6", "access-recording functions (doorkeeper then sketch)", len(lfu), 1)
     for f in lfu:
         ctx.touch(f)
